@@ -940,7 +940,7 @@ class C15(ValProp):
             t, v = self.tv(g, tier, mutable=True)
             v = boundary_value(g, t, v)
             ops, _ = g.ops(t, v, g.rng.choice([4, 10, 25]))
-            out.append(show(['hist', t, v] + ops))
+            out.append(show(['histf', t, v] + ops))
         # pairs
         for _ in range(self.n(tier) // 3):
             t, v = self.tv(g, tier)
@@ -986,7 +986,7 @@ class C15(ValProp):
                 if a != b:
                     out.append(F('corr', 'stack iterator %s %s on a raw tree' % (c[0], show(c[1:])), a, b))
             return out
-        if case[0] == 'hist':
+        if case[0] == 'histf':
             bump(stats, 'kinds', 'hist:' + kind(case[1]))
             for i, op in enumerate(case[3:]):
                 bump(stats, 'ops', op[0])
@@ -1492,6 +1492,9 @@ class C19(HistProp):
                 p = '%d.' % i
                 bump(stats, 'ops', 'hcost')
                 a, b = py.get(p + 'hcost'), mo.get(p + 'hcost')
+                if py.get(p + 'hshare') not in ('0', '-'):
+                    out.append(F('prop', 'setter(%s, expand=%s): siblings along the path that are not the same node object as before' % (c[1], c[2]),
+                                 py.get(p + 'hshare'), '0'))
                 if a != b:
                     pa, pb = (a or '').split('/'), (b or '').split('/')
                     worse = len(pa) >= 3 and len(pb) >= 3 and pa[2].isdigit() and pb[2].isdigit() and int(pa[2]) > int(pb[2])
@@ -1536,6 +1539,13 @@ class C19(HistProp):
                 bad = [gi for gi in fresh if not (tb.startswith(bin(gi)[2:]) or bin(gi)[2:].startswith(tb))]
                 if bad:
                     out.append(F('prop', 'op %d %s rebuilt nodes off the changed path (gindices)' % (i, show(op)), str(bad[:10]), 'only ancestors/descendants of %s' % tgt))
+                    break
+                # leaves: a new leaf object may only appear on the changed path (or be the length / selector mix-in)
+                mix = [3] if kind(case[1]) in ('list', 'bl', 'Bl', 'union') else []
+                lv = [int(x) for x in (py.get(p + 'pleaves') or '').split(',') if x.strip().isdigit()]
+                badl = [gi for gi in lv if gi not in mix and not (tb.startswith(bin(gi)[2:]) or bin(gi)[2:].startswith(tb))]
+                if badl:
+                    out.append(F('prop', 'op %d %s replaced leaves off the changed path (gindices)' % (i, show(op)), str(badl[:10]), 'only on the path to %s' % tgt))
                     break
                 on_path = [gi for gi in fresh if tb.startswith(bin(gi)[2:])]
                 if len(on_path) > len(tb):
@@ -1700,11 +1710,41 @@ class C20(Prop):
                 hist, _ = g.ops(t, v, r.choice([2, 5, 12]), 0.1)
                 for o in hist:
                     if r.random() < 0.4:
-                        ops.append(r.choice([['read'], ['len'], ['bytes'], ['root'], ['elem', r.randint(0, 6)], ['elem', r.randint(0, 300)]]))
+                        ops.append(r.choice([['read'], ['len'], ['bytes'], ['root'], ['elem', r.randint(0, 6)], ['elem', r.randint(0, 300)],
+                                             ['iter'], ['slice', r.randint(0, 9), r.randint(0, 9)], ['nav', r.randint(1, 1 << r.choice([2, 4, 7]))]]))
                     ops.append(o)
                 ops.append(['read'])
             ops.append(['bytes'])
             out.append(show(['virt', t, v] + ops))
+        # values whose whole backing is ONE leaf (observed first, written afterwards), and lists whose
+        # unused capacity is a collapsed zero subtree (a failed navigation into it, then growth into it)
+        for _ in range(self.n(tier) // 3):
+            c = r.randrange(5)
+            if c == 0:
+                e = r.choice(['u64', 'u16', 'u128', 'u32', 'bool', 'u8', 'u256'])
+                t = ['vec', e, r.randint(1, 32 // UINT_W.get(e, 1))]
+            elif c == 1:
+                t = ['bv', r.choice([1, 8, 10, 255, 256])]
+            elif c == 2:
+                t = ['cont', 'u8', ['vec', 'u64', r.randint(1, 4)], ['bv', r.choice([3, 200])], 'u16']
+            elif c == 3:
+                t = ['list', r.choice(['u64', 'u8', ['cont', 'u8', 'u8'], ['vec', 'u64', 2]]), r.choice([32, 64, 1000, 2**20])]
+            else:
+                t = ['bl', r.choice([2048, 5000, 2**16])]
+            v = g.val(t, 6)
+            observe = lambda: r.choice([['bytes'], ['iter'], ['read'], ['root'], ['slice', 0, 40], ['len']])
+            ops = []
+            if kind(t) in ('list', 'bl'):
+                d = _get_depth(t[2] if kind(t) == 'list' else (t[1] + 255) // 256)
+                ops.append(['nav', (2 << min(d, 12)) | r.randint(1, 20)])
+                ops.append(['nav', r.randint(4, 1 << min(d + 1, 12))])
+            ops.append(observe())
+            hist, _ = g.ops(t, v, r.choice([2, 4, 8]))
+            for o in hist:
+                ops.append(o)
+                if r.random() < 0.5:
+                    ops.append(observe())
+            out.append(show(['virt', t, v] + ops + [['read']]))
         # tree level: the same tree served lazily, against the virtual-tree model
         for _ in range(self.n(tier)):
             tr = g.tree(r.choice([1, 2, 3, 4, 5]), r.choice([0.1, 0.3, 0.5]))
